@@ -165,130 +165,372 @@ def check_python(ctx):
         if name not in fns:
             continue
         f = PyFn(ctx, tree, fns[name], json_alias, native)
-        check_fn(ctx, f, sp)
+        check_fn(ctx, f, sp, fns)
 
 
-def check_fn(ctx, f, sp):
+# ---------------------------------------------------------------------------------------------------------------
+# K1: the wrapper functions read as *paths* (Python `ast`).  Every way through a public function — `if`/`else`,
+# conditional expressions, early returns, module-level or nested helper functions (evaluated at their call sites) —
+# is one path with: the value it returns as a term over the parameters, the calls it made, and what it established
+# about `x is None` for the values it tested.  The clauses are stated on these paths, not on statement shapes.
+
+BANNED = (ast.Try, ast.Global, ast.Nonlocal, ast.With, ast.While, ast.For, ast.Lambda, ast.Yield, ast.YieldFrom, ast.Await,
+          ast.AsyncFunctionDef, ast.AsyncFor, ast.AsyncWith, ast.ClassDef, ast.Delete)
+
+
+class PyState:
+    __slots__ = ("env", "facts", "calls", "unknown")
+
+    def __init__(self, env=None, facts=None, calls=(), unknown=()):
+        self.env, self.facts, self.calls, self.unknown = env or {}, facts or {}, tuple(calls), tuple(unknown)
+
+    def set(self, **kw):
+        n = PyState(self.env, self.facts, self.calls, self.unknown)
+        for k, v in kw.items():
+            setattr(n, k, v)
+        return n
+
+    def bind(self, name, val):
+        e = dict(self.env)
+        e[name] = val
+        return self.set(env=e)
+
+    def know(self, val, what):
+        f = dict(self.facts)
+        f[val] = what
+        return self.set(facts=f)
+
+
+class PyPaths:
+    """Symbolic evaluation of one function of the wrapper module.  Values:
+       ("param", name) | ("const", v) | ("json", attr) | ("native",) | ("func", FunctionDef) | ("global", name) |
+       ("attr", value, name) | ("call", callee value, (args…), (keyword names…), uid, node) | ("opaque", source)"""
+    MAX = 400
+
+    def __init__(self, modfuncs, json_alias, native):
+        self.modfuncs, self.json, self.native = modfuncs, json_alias, native
+        self.uid = 0
+        self.problems = []        # (kind, key, detail, node): "construct" = a statement/expression form outside the adapter language
+        self.overflow = False
+        self.inlined = set()
+
+    # ---- expressions → [(value, state)]
+    def lookup(self, name, st):
+        if name in st.env:
+            return st.env[name]
+        if name in self.modfuncs:
+            return ("func", self.modfuncs[name])
+        if name == self.json:
+            return ("jsonmod",)
+        if name == self.native:
+            return ("native",)
+        return ("global", name)
+
+    def eval(self, e, st, depth=0):
+        if isinstance(e, ast.Constant):
+            return [(("const", e.value), st)]
+        if isinstance(e, ast.Name):
+            return [(self.lookup(e.id, st), st)]
+        if isinstance(e, ast.Attribute):
+            out = []
+            for v, s1 in self.eval(e.value, st, depth):
+                out.append((("json", e.attr) if v == ("jsonmod",) else ("attr", v, e.attr), s1))
+            return out
+        if isinstance(e, ast.IfExp):
+            out = []
+            for truth, s1 in self.test(e.test, st, depth):
+                out.extend(self.eval(e.body if truth else e.orelse, s1, depth))
+            return out
+        if isinstance(e, ast.Call):
+            return self.call(e, st, depth)
+        if isinstance(e, BANNED):
+            self.problems.append(("construct", type(e).__name__, "a %s expression" % type(e).__name__, e))
+        # any other computation on the values: the calls inside it are still made
+        states = [st]
+        for sub in ast.iter_child_nodes(e):
+            if isinstance(sub, ast.expr):
+                states = [s2 for s1 in states for (_v, s2) in self.eval(sub, s1, depth)]
+        return [(("opaque", src_name(e)), s1) for s1 in states]
+
+    def call(self, e, st, depth):
+        out = []
+        for fv, s1 in self.eval(e.func, st, depth):
+            argstates = [((), s1)]
+            star = False
+            for a in e.args:
+                if isinstance(a, ast.Starred):
+                    star = True
+                    a = a.value
+                argstates = [(vals + (v,), s3) for (vals, s2) in argstates for (v, s3) in self.eval(a, s2, depth)]
+            kwnames = []
+            kwstates = [(vals, (), s2) for (vals, s2) in argstates]
+            for kw in e.keywords:
+                if kw.arg is None:
+                    star = True
+                kwnames.append(kw.arg)
+                kwstates = [(vals, kvs + (v,), s3) for (vals, kvs, s2) in kwstates for (v, s3) in self.eval(kw.value, s2, depth)]
+            for vals, kvs, s2 in kwstates:
+                if len(out) > self.MAX:
+                    self.overflow = True
+                    return out
+                if fv[0] == "func" and not star and depth < 4 and (len(fv) == 2 or fv[3] == depth):
+                    out.extend(self.inline(fv[1], vals, dict(zip(kwnames, kvs)), s2, depth, e, nested=len(fv) > 2))
+                    continue
+                if fv[0] == "func":
+                    self.problems.append(("unread", fv[1].name, "the call of the helper %s could not be followed" % fv[1].name, e))
+                self.uid += 1
+                v = ("call", fv, vals + kvs, tuple(kwnames) + (("*",) if star else ()), self.uid, e)
+                out.append((v, s2.set(calls=s2.calls + (v,))))
+        return out
+
+    def inline(self, fn, vals, kws, st, depth, site, nested=False):
+        """A helper function of the module (or a nested one) evaluated at its call site."""
+        if fn.name not in self.inlined:
+            self.inlined.add(fn.name)
+            for n in ast.walk(fn):
+                if isinstance(n, BANNED):
+                    self.problems.append(("construct", "%s:%s" % (fn.name, type(n).__name__), "the helper %s contains a %s" % (fn.name, type(n).__name__), n))
+        a = fn.args
+        names = [x.arg for x in a.posonlyargs + a.args]
+        defaults = [None] * (len(names) - len(a.defaults)) + list(a.defaults)
+        if a.vararg or a.kwarg or len(vals) > len(names) or any(k not in names + [x.arg for x in a.kwonlyargs] for k in kws):
+            self.uid += 1
+            v = ("call", ("func", fn), vals, tuple(kws), self.uid, site)
+            return [(v, st.set(calls=st.calls + (v,)))]
+        env = dict(st.env) if nested else {}
+        for i, nme in enumerate(names):
+            if i < len(vals):
+                env[nme] = vals[i]
+            elif nme in kws:
+                env[nme] = kws[nme]
+            elif defaults[i] is not None:
+                env[nme] = ("const", defaults[i].value) if isinstance(defaults[i], ast.Constant) else ("opaque", src_name(defaults[i]))
+            else:
+                env[nme] = ("opaque", "<missing argument %s>" % nme)
+        for x, d in zip(a.kwonlyargs, a.kw_defaults):
+            env[x.arg] = kws.get(x.arg, ("const", d.value) if isinstance(d, ast.Constant) else ("opaque", src_name(d) if d is not None else "<missing>"))
+        out = []
+        for kind, val, s1 in self.block(fn.body, st.set(env=env), depth + 1):
+            out.append((val if kind == "return" else ("const", None), s1.set(env=st.env)))
+        return out
+
+    # ---- tests → [(truth, state)]
+    def test(self, e, st, depth=0):
+        if isinstance(e, ast.UnaryOp) and isinstance(e.op, ast.Not):
+            return [(not t, s1) for t, s1 in self.test(e.operand, st, depth)]
+        if isinstance(e, ast.BoolOp):
+            conj = isinstance(e.op, ast.And)
+            cur = [(conj, st)]
+            for sub in e.values:
+                nxt = []
+                for t, s1 in cur:
+                    if t != conj:
+                        nxt.append((t, s1))        # short-circuited
+                    else:
+                        nxt.extend(self.test(sub, s1, depth))
+                cur = nxt
+            return cur
+        if isinstance(e, ast.Constant):
+            return [(bool(e.value), st)]
+        if isinstance(e, ast.Compare) and len(e.ops) == 1 and isinstance(e.ops[0], (ast.Is, ast.IsNot)) and isinstance(e.comparators[0], ast.Constant) and e.comparators[0].value is None:
+            positive = isinstance(e.ops[0], ast.Is)
+            out = []
+            for v, s1 in self.eval(e.left, st, depth):
+                k = self.nullness(v, s1)
+                if k is not None:
+                    out.append(((k == "none") == positive, s1))
+                else:
+                    out.append((positive, s1.know(v, "none")))
+                    out.append((not positive, s1.know(v, "notnone")))
+            return out
+        # any other test (truthiness, comparisons, isinstance …): both ways, nothing learnt
+        out = []
+        for v, s1 in self.eval(e, st, depth):
+            s2 = s1.set(unknown=s1.unknown + (src_name(e),))
+            out.append((True, s2))
+            out.append((False, s2))
+        return out
+
+    @staticmethod
+    def nullness(v, st):
+        if v[0] == "const":
+            return "none" if v[1] is None else "notnone"
+        if v[0] in ("json", "native", "func", "jsonmod"):
+            return "notnone"
+        return st.facts.get(v)
+
+    # ---- statements → [("return", value, state) | ("next", None, state)]
+    def block(self, stmts, st, depth=0):
+        cur = [st]
+        done = []
+        for s in stmts:
+            nxt = []
+            for s0 in cur:
+                for kind, val, s1 in self.stmt(s, s0, depth):
+                    if kind == "return":
+                        done.append((kind, val, s1))
+                    else:
+                        nxt.append(s1)
+            cur = nxt
+            if len(cur) + len(done) > self.MAX:
+                self.overflow = True
+                break
+        return done + [("next", None, s1) for s1 in cur]
+
+    def stmt(self, s, st, depth):
+        if isinstance(s, ast.Expr):
+            if isinstance(s.value, ast.Constant):
+                return [("next", None, st)]
+            return [("next", None, s1) for _v, s1 in self.eval(s.value, st, depth)]
+        if isinstance(s, ast.Pass):
+            return [("next", None, st)]
+        if isinstance(s, (ast.Assign, ast.AnnAssign)) and getattr(s, "value", None) is not None:
+            tgts = s.targets if isinstance(s, ast.Assign) else [s.target]
+            if len(tgts) == 1 and isinstance(tgts[0], ast.Name):
+                return [("next", None, s1.bind(tgts[0].id, v)) for v, s1 in self.eval(s.value, st, depth)]
+        if isinstance(s, ast.If):
+            out = []
+            for truth, s1 in self.test(s.test, st, depth):
+                out.extend(self.block(s.body if truth else s.orelse, s1, depth))
+            return out
+        if isinstance(s, ast.Return):
+            if s.value is None:
+                return [("return", ("const", None), st)]
+            return [("return", v, s1) for v, s1 in self.eval(s.value, st, depth)]
+        if isinstance(s, ast.FunctionDef):
+            # a nested helper: its free variables are those of the function that defines it, looked up when it is called
+            return [("next", None, st.bind(s.name, ("func", s, "nested", depth)))]
+        self.problems.append(("construct", type(s).__name__, "a %s statement" % type(s).__name__, s))
+        return [("next", None, st)]
+
+
+def show_val(v):
+    if v[0] == "param":
+        return v[1]
+    if v[0] == "const":
+        return repr(v[1])
+    if v[0] == "json":
+        return "json.%s" % v[1]
+    if v[0] == "native":
+        return "<native apply>"
+    if v[0] == "func":
+        return v[1].name
+    if v[0] == "global":
+        return v[1]
+    if v[0] == "attr":
+        return "%s.%s" % (show_val(v[1]), v[2])
+    if v[0] == "call":
+        return "%s(%s)" % (show_val(v[1]), ", ".join(show_val(a) for a in v[2]))
+    return v[1] if len(v) > 1 else v[0]
+
+
+def check_fn(ctx, f, sp, modfuncs):
     fn = f.fn
     name = fn.name
     w = lambda n: "%s:%d" % (PYFILE, getattr(n, "lineno", fn.lineno))
     ctx.check(f.order[:2] == ["value", "data"] and f.is_none_default("data"), "K1.signature", "%s(value, data=None, …)" % name, "parameters are %s" % f.order, where=f.where)
     for p in sp["callables"]:
         ctx.check(p in f.params and f.is_none_default(p), "K1.optional", "%s: %s defaults to None" % (name, p), "parameter %s missing or with another default" % p, where=f.where)
-    # forbidden constructs
+    # constructs outside the adapter language (an except clause could swallow or re-type the ValueError)
     for n in ast.walk(fn):
-        if isinstance(n, (ast.Try, ast.Global, ast.Nonlocal, ast.With, ast.While, ast.For, ast.Lambda, ast.Yield, ast.Await)):
+        if isinstance(n, BANNED):
             ctx.fail("K1.construct", "%s:%s" % (name, type(n).__name__), "%s contains a %s — the wrapper must be a straight-line adapter (an except clause could swallow or re-type the ValueError)" % (name, type(n).__name__), where=w(n), fn=name)
-    # dataflow over the straight-line body (if statements allowed)
-    state = {"nonnull": {}, "data_null": False}  # param -> default expr it was rebound to
-    calls = []
+    ev = PyPaths({k: v for k, v in modfuncs.items() if k != name}, f.json, f.native)
+    st0 = PyState(env={p: ("param", p) for p in f.order})
+    paths = ev.block(fn.body, st0)
+    for kind, key, detail, node in ev.problems:
+        if kind == "unread":
+            ctx.unread("K1.returns-decoded", "%s:%s" % (name, key), detail, where=w(node), fn=name)
+            continue
+        ctx.fail("K1.construct", "%s:%s" % (name, key), "%s: %s — the wrapper must be a straight-line adapter" % (name, detail), where=w(node), fn=name)
+    if ev.overflow or not paths:
+        ctx.unread("K1.returns-decoded", name, "%s has too many paths to be read" % name, where=f.where, fn=name)
+        return
+    if any(k == "unread" for k, *_ in ev.problems):
+        return
+    fails = {}     # clause -> (detail, where)
+    P = lambda n: ("param", n)
 
-    def visit_expr(e, st):
-        for n in ast.walk(e):
-            if isinstance(n, ast.Call):
-                calls.append((n, dict(st["nonnull"]), st["data_null"], dict(st.get("assigned", {}))))
+    def bad(clause, detail, node=None):
+        fails.setdefault(clause, (detail, w(node) if node is not None else f.where))
 
-    def run_block(stmts, st):
-        for s in stmts:
-            if isinstance(s, ast.Expr) and isinstance(s.value, ast.Constant):
-                continue  # docstring
-            if isinstance(s, ast.Assign) and len(s.targets) == 1 and isinstance(s.targets[0], ast.Name):
-                tgt = s.targets[0].id
-                visit_expr(s.value, st)
-                d = defaulted_value(s.value, tgt)
-                if d is not None and tgt in f.params:
-                    if tgt == "data":
-                        st["data_null"] = d
-                    else:
-                        st["nonnull"][tgt] = d
-                else:
-                    st.setdefault("assigned", {})[tgt] = s.value
-                    if tgt in st["nonnull"]:
-                        del st["nonnull"][tgt]
-            elif isinstance(s, ast.If):
-                visit_expr(s.test, st)
-                # `if p is None: p = D`
-                done = False
-                for p in list(f.params):
-                    if none_test(s.test, p) == -1 and len(s.body) == 1 and isinstance(s.body[0], ast.Assign) and is_name(s.body[0].targets[0], p) and not s.orelse:
-                        visit_expr(s.body[0].value, st)
-                        if p == "data":
-                            st["data_null"] = s.body[0].value
-                        else:
-                            st["nonnull"][p] = s.body[0].value
-                        done = True
-                if not done:
-                    a = {"nonnull": dict(st["nonnull"]), "data_null": st["data_null"], "assigned": dict(st.get("assigned", {}))}
-                    b = {"nonnull": dict(st["nonnull"]), "data_null": st["data_null"], "assigned": dict(st.get("assigned", {}))}
-                    run_block(s.body, a)
-                    run_block(s.orelse, b)
-                    st["nonnull"] = {k: v for k, v in a["nonnull"].items() if k in b["nonnull"]}
-                    st["data_null"] = a["data_null"] if (a["data_null"] and b["data_null"]) else False
-            elif isinstance(s, ast.Return):
-                if s.value is not None:
-                    visit_expr(s.value, st)
-                st.setdefault("returns", []).append((s, dict(st.get("assigned", {}))))
-            elif isinstance(s, ast.Expr):
-                visit_expr(s.value, st)
+    def callable_ok(fv, st, param, attr, node):
+        """The callable used is the supplied one when one was supplied, json.<attr> exactly when none was."""
+        if fv == P(param):
+            if st.facts.get(fv) != "notnone":
+                bad("K1.defaulted", "%s(…) is called although %s may still be None (on some path it is not replaced by its default before the call): TypeError instead of a result" % (param, param), node)
+            return True
+        if fv == ("json", attr):
+            if st.facts.get(P(param)) != "none":
+                bad("K1.default-is-json", "json.%s is used on a path on which %s may have been supplied: the caller's %s is ignored" % (attr, param, param), node)
+            return True
+        if fv[0] in ("json", "const", "global", "opaque", "attr", "call", "func", "native", "param"):
+            if st.facts.get(P(param)) == "none" or fv[0] == "json":
+                bad("K1.default-is-json", "%s defaults to %s instead of json.%s" % (param, show_val(fv), attr), node)
             else:
-                ctx.fail("K1.construct", "%s:%s" % (name, type(s).__name__), "unexpected statement %s in %s" % (type(s).__name__, name), where=w(s), fn=name)
+                bad("K1.defaulted", "where %s is expected, %s is called" % (param, show_val(fv)), node)
+        return False
 
-    run_block(fn.body, state)
-    # calls: only the optional callables, json defaults and the native function
-    native_calls = []
-    for c, nonnull, data_null, assigned_at in calls:
-        callee = c.func
-        if isinstance(callee, ast.Name) and callee.id in sp["callables"]:
-            p = callee.id
-            d = nonnull.get(p)
-            ok = d is not None
-            ctx.check(ok, "K1.defaulted", "%s: %s is non-None when called" % (name, p),
-                      "%s(…) is called although %s may still be None (no `%s = %s if %s is not None else …` on every path before the call): TypeError instead of a result" % (p, p, p, p, p), where=w(c), fn=name, nontrivial=True)
-            if ok:
-                want = sp["callables"][p]
-                good = isinstance(d, ast.Attribute) and is_name(d.value, f.json) and d.attr == want
-                ctx.check(good, "K1.default-is-json", "%s: %s defaults to json.%s" % (name, p, want), "%s defaults to %s" % (p, src_name(d)), where=w(c), fn=name, nontrivial=True)
-        elif isinstance(callee, ast.Name) and callee.id == f.native:
-            native_calls.append((c, nonnull, data_null, assigned_at))
-        elif isinstance(callee, ast.Attribute) and is_name(callee.value, f.json) and callee.attr in ("dumps", "loads"):
-            pass
+    for kind, val, st in paths:
+        natives = [c for c in st.calls if c[1] == ("native",)]
+        if len(natives) != 1:
+            bad("K1.native-once", "%d calls of the native function on a path through %s" % (len(natives), name), natives[1][5] if len(natives) > 1 else None)
+        if kind != "return" or val == ("const", None):
+            bad("K1.returns-decoded", "%s can end without returning a value" % name)
+            continue
+        used = []
+        if not (val[0] == "call" and len(val[2]) == 1 and not val[3]):
+            bad("K1.returns-decoded", "%s returns %s — not deserializer(<result of the native apply>)" % (name, show_val(val)[:120]), val[5] if val[0] == "call" else None)
+            continue
+        used.append(val)
+        if not callable_ok(val[1], st, "deserializer", "loads", val[5]):
+            bad("K1.returns-decoded", "%s returns %s — not deserializer(<result of the native apply>)" % (name, show_val(val)[:120]), val[5])
+        nat = val[2][0]
+        if not (nat[0] == "call" and nat[1] == ("native",)):
+            bad("K1.returns-decoded", "%s returns %s — the decoded value is not the result of the native apply" % (name, show_val(val)[:120]), val[5])
+            continue
+        used.append(nat)
+        if len(nat[2]) != 2 or nat[3]:
+            bad("K1.native-args", "native call: %s" % show_val(nat)[:120], nat[5])
+            continue
+        a0, a1 = nat[2]
+        if sp["args"] == "serialized":
+            for i, (a, pn, clause, what) in enumerate(((a0, "value", "K1.rule-arg", "first"), (a1, "data", "K1.data-arg", "second"))):
+                good = a[0] == "call" and len(a[2]) == 1 and not a[3] and (a[2][0] == P(pn) or (a[2][0] == ("const", None) and st.facts.get(P(pn)) == "none"))
+                if not good:
+                    bad(clause, "%s native argument is %s — must be serializer(%s)%s" % (what, show_val(a)[:100], pn, "; supplied data must be serialised as it is, omitted data as null" if pn == "data" else ""), nat[5])
+                    continue
+                used.append(a)
+                callable_ok(a[1], st, "serializer", "dumps", a[5])
         else:
-            ctx.fail("K1.other-call", "%s:%s" % (name, src_name(callee)), "%s calls %s — the wrapper may only serialise, call the native function and deserialise" % (name, src_name(callee)), where=w(c), fn=name)
-    ctx.check(len(native_calls) == 1, "K1.native-once", "%s calls the native apply exactly once" % name, "%d calls of the native function" % len(native_calls), where=f.where, fn=name, nontrivial=True)
-    if len(native_calls) != 1:
-        return
-    c, nonnull, data_null, assigned_at = native_calls[0]
-    ctx.check(len(c.args) == 2 and not c.keywords, "K1.native-args", "%s passes two positional arguments" % name, "native call: %s" % src_name(c), where=w(c), fn=name)
-    if len(c.args) != 2:
-        return
-    a0, a1 = c.args
-    # a local that holds an argument (`encoded = serializer(value)`) stands for the expression it was assigned
-    a0 = assigned_at.get(a0.id, a0) if isinstance(a0, ast.Name) and a0.id not in f.params else a0
-    a1 = assigned_at.get(a1.id, a1) if isinstance(a1, ast.Name) and a1.id not in f.params else a1
-    if sp["args"] == "serialized":
-        g0 = isinstance(a0, ast.Call) and is_name(a0.func, "serializer") and len(a0.args) == 1 and is_name(a0.args[0], "value") and not a0.keywords
-        g1 = isinstance(a1, ast.Call) and is_name(a1.func, "serializer") and len(a1.args) == 1 and is_name(a1.args[0], "data") and not a1.keywords
-        ctx.check(g0, "K1.rule-arg", "apply passes serializer(value) first", "first native argument is %s" % src_name(a0), where=w(c), fn=name, nontrivial=True)
-        ctx.check(g1, "K1.data-arg", "apply passes serializer(data) second (None serialises to null)", "second native argument is %s — supplied data must be serialised as it is, omitted data as null" % src_name(a1), where=w(c), fn=name, nontrivial=True)
-    else:
-        ctx.check(is_name(a0, "value"), "K1.rule-arg", "apply_serialized passes value first, unchanged", "first native argument is %s" % src_name(a0), where=w(c), fn=name, nontrivial=True)
-        d = defaulted_value(a1, "data")
-        if d is None and is_name(a1, "data") and data_null:
-            d = data_null
-        good = isinstance(d, ast.Constant) and d.value == "null"
-        ctx.check(good, "K1.data-arg", "apply_serialized passes data, or the literal \"null\" exactly when data is None", "second native argument is %s — must be `data if data is not None else \"null\"`" % src_name(a1), where=w(c), fn=name, nontrivial=True)
-    # return deserializer(<native result>)
-    rets = state.get("returns", [])
-    ctx.check(len(rets) == 1, "K1.single-return", "%s has one return" % name, "%d return statements" % len(rets), where=f.where, fn=name)
-    for r, assigned in rets:
-        v = r.value
-        good = isinstance(v, ast.Call) and is_name(v.func, "deserializer") and len(v.args) == 1 and not v.keywords
-        if good:
-            x = v.args[0]
-            if isinstance(x, ast.Name) and x.id in assigned:
-                x = assigned[x.id]
-            good = x is c
-        ctx.check(bool(good), "K1.returns-decoded", "%s returns deserializer(native result)" % name, "%s returns %s" % (name, src_name(v)), where=w(r), fn=name, nontrivial=True)
+            if a0 != P("value"):
+                bad("K1.rule-arg", "first native argument is %s — must be value, unchanged" % show_val(a0)[:100], nat[5])
+            dk = st.facts.get(P("data"))
+            if a1 == P("data"):
+                if dk != "notnone":
+                    bad("K1.data-arg", "data is passed to the native function on a path on which it may be None — must be `data if data is not None else \"null\"`", nat[5])
+            elif a1 == ("const", "null"):
+                if dk != "none":
+                    bad("K1.data-arg", "the literal \"null\" replaces data on a path on which data was not established to be None (decided by: %s) — must be `data if data is not None else \"null\"`" % (", ".join(st.unknown) or "nothing"), nat[5])
+            else:
+                bad("K1.data-arg", "second native argument is %s — must be `data if data is not None else \"null\"`" % show_val(a1)[:100], nat[5])
+        for c in st.calls:
+            if not any(c is u for u in used) and c[1] != ("native",):
+                bad("K1.other-call:%s" % show_val(c[1])[:40], "%s calls %s — the wrapper may only serialise, call the native function and deserialise" % (name, show_val(c)[:80]), c[5])
+    for clause, (detail, where) in sorted(fails.items()):
+        cl, _, inst = clause.partition(":")
+        ctx.fail(cl, "%s:%s" % (name, inst) if inst else name, detail, where=where, fn=name)
+    oks = {"K1.native-once": "%s calls the native apply exactly once on every path" % name,
+           "K1.returns-decoded": "%s returns deserializer(native result) on every path" % name,
+           "K1.rule-arg": "%s passes the rule first (%s)" % (name, "serializer(value)" if sp["args"] == "serialized" else "value, unchanged"),
+           "K1.data-arg": "%s passes %s second" % (name, "serializer(data) (None serialises to null)" if sp["args"] == "serialized" else "data, or the literal \"null\" exactly when data is None"),
+           "K1.defaulted": "%s: no optional callable is called while it may be None" % name,
+           "K1.default-is-json": "%s: the defaults are json.%s, used exactly when nothing was supplied" % (name, "/json.".join(sorted(set(sp["callables"].values())))),
+           "K1.other-call": "%s makes no other call" % name}
+    failed = {c.partition(":")[0] for c in fails}
+    for cl, txt in oks.items():
+        if cl not in failed:
+            ctx.ok(cl, txt, nontrivial=cl not in ("K1.other-call",), sample={"paths": len(paths), "helpers": sorted(ev.inlined)})
 
 
 # ---------------------------------------------------------------------------------------------------------------
